@@ -236,3 +236,41 @@ pub fn char_classes(text: &str) -> Vec<(u8, char)> {
         })
         .collect()
 }
+
+/// Named crash / fault points between the file-system operations of the Files
+/// emitters. No-ops unless the environment variable `RUSTFMT_VERIF_CRASH` is
+/// `<name>` (abort the process there), `fail:<name>` (return an injected I/O
+/// error there) — optionally suffixed with `@<k>` to act only on the k-th time
+/// (1-based) the point is reached in this process.
+pub fn crash_point(name: &str) -> std::io::Result<()> {
+    use std::sync::atomic::{AtomicUsize, Ordering};
+    static HITS: AtomicUsize = AtomicUsize::new(0);
+    let Ok(spec) = std::env::var("RUSTFMT_VERIF_CRASH") else {
+        return Ok(());
+    };
+    let (spec, nth) = match spec.rsplit_once('@') {
+        Some((s, k)) => (s.to_owned(), k.parse::<usize>().ok()),
+        None => (spec, None),
+    };
+    let (fail, want) = match spec.strip_prefix("fail:") {
+        Some(w) => (true, w.to_owned()),
+        None => (false, spec),
+    };
+    if want != name {
+        return Ok(());
+    }
+    let hit = HITS.fetch_add(1, Ordering::SeqCst) + 1;
+    if let Some(k) = nth {
+        if k != hit {
+            return Ok(());
+        }
+    }
+    if fail {
+        Err(std::io::Error::new(
+            std::io::ErrorKind::Other,
+            format!("injected fault at {name}"),
+        ))
+    } else {
+        std::process::abort()
+    }
+}
